@@ -12,6 +12,9 @@ def expected(case, op, dev_cfg=None):
         dest = prefix + (op["cmd"].encode("utf8") if name != "root" else b"")
         if any(dest.startswith(pre) for pre in (cfg.get("ignore_open") or ())):
             return ("exc", "TIMEOUT")
+        for pre, delay in (cfg.get("open_delay") or {}).items():
+            if dest.startswith(pre) and delay > op.get("read_timeout_s", 10.0):
+                return ("exc", "TIMEOUT")
         chunks = (cfg.get("services") or {}).get(dest)
         if chunks is None:
             chunks = cfg.get("default_service") or []
